@@ -14,14 +14,22 @@ type WalkProperty struct {
 type WalkCallback func(schema WalkProperty) error
 
 func WalkSchemaFields(root RootSchema, asClient bool, callback WalkCallback) error {
-	err := walkSchemaFields(root, asClient, callback, nil)
+	err := walkSchemaFields(root, asClient, callback, nil, map[RootSchema]bool{})
 	if err != nil {
 		return err
 	}
 	return nil
 }
 
-func walkSchemaFields(root RootSchema, asClient bool, callback WalkCallback, path []string) error {
+// walkSchemaFields visits the properties below root. Schemas may refer to
+// themselves, directly or through other schemas: a schema which is already
+// being walked further up the current path is not descended into again.
+func walkSchemaFields(root RootSchema, asClient bool, callback WalkCallback, path []string, walking map[RootSchema]bool) error {
+	if walking[root] {
+		return nil
+	}
+	walking[root] = true
+	defer delete(walking, root)
 
 	var properties PropertySet
 	switch rt := root.(type) {
@@ -50,11 +58,11 @@ func walkSchemaFields(root RootSchema, asClient bool, callback WalkCallback, pat
 
 		switch st := prop.Schema.(type) {
 		case *ObjectField:
-			if err := walkSchemaFields(st.Ref.To, asClient, callback, propPath); err != nil {
+			if err := walkSchemaFields(st.Ref.To, asClient, callback, propPath, walking); err != nil {
 				return err // not wrapped, the path is already in the error above
 			}
 		case *OneofField:
-			if err := walkSchemaFields(st.Ref.To, asClient, callback, propPath); err != nil {
+			if err := walkSchemaFields(st.Ref.To, asClient, callback, propPath, walking); err != nil {
 				return err // not wrapped, the path is already in the error above
 			}
 		}
